@@ -8,6 +8,10 @@ ENV = dict(os.environ, CARGO_NET_OFFLINE="true")
 
 
 def sh(cmd, cwd, timeout=2400):
+    # every command runs in its own network namespace (loopback only): the crate's transport test binds the fixed
+    # port 3868, so several ingestions can run side by side
+    if not cmd.startswith("git "):
+        cmd = "unshare -n sh -c " + repr("ip link set lo up && " + cmd)
     p = subprocess.run(cmd, cwd=cwd, shell=True, env=ENV, stdout=subprocess.PIPE, stderr=subprocess.STDOUT, text=True, timeout=timeout)
     return p.returncode, p.stdout
 
